@@ -86,7 +86,14 @@ type raceVerdict struct {
 	Millis  int64
 }
 
-const raceBound = 30 * time.Second
+// per-workload bound (a time-out is a verdict of its own); VERIF_RACE_BOUND_S overrides it for self-tests
+var raceBound = func() time.Duration {
+	var n int
+	if fmt.Sscan(os.Getenv("VERIF_RACE_BOUND_S"), &n); n > 0 {
+		return time.Duration(n) * time.Second
+	}
+	return 30 * time.Second
+}()
 
 func raceWorkers() int {
 	n := runtime.NumCPU()
@@ -150,8 +157,15 @@ func racePool(jobs []raceWorkload, stopAfter int) []*raceVerdict {
 	// a timed-out workload is run once more, alone, with twice the bound (the machine may be overloaded)
 	sort.Ints(retry)
 	slot := &raceSlot{}
+	confirmed := 0
 	for _, i := range retry {
+		if stopAfter > 0 && confirmed >= stopAfter {
+			break // enough evidence of a hang; the rest stays unevaluated
+		}
 		res[i] = slot.eval(jobs[i], 2*raceBound)
+		if res[i].Verdict == "timeout" {
+			confirmed++
+		}
 	}
 	slot.stop()
 	return res
@@ -211,15 +225,28 @@ func raceReplay(c *Ctx) bool {
 			jobs = append(jobs, j)
 		}
 	}
-	res := racePool(jobs, 0)
+	stop := 0
+	if len(raws) == 1 {
+		stop = 1 // one non-ok verdict decides a single case
+	}
+	res := racePool(jobs, stop)
 	for i := range raws {
-		best := res[i*reps]
-		job := jobs[i*reps]
+		var best *raceVerdict
+		var job raceWorkload
 		for k := 0; k < reps; k++ {
-			if v := res[i*reps+k]; v != nil && v.Verdict != "ok" {
+			v := res[i*reps+k]
+			if v == nil {
+				continue
+			}
+			if best == nil || v.Verdict != "ok" {
 				best, job = v, jobs[i*reps+k]
+			}
+			if v.Verdict != "ok" {
 				break
 			}
+		}
+		if best == nil {
+			panic("race replay: no attempt was evaluated")
 		}
 		c.Hit("via:" + job.Via)
 		c.Hit("verdict:" + best.Verdict)
